@@ -73,6 +73,7 @@ pub fn main(args: &[String]) {
     let (mut n_cases, mut n_unmodelled, mut n_err, mut n_panic) = (0u64, 0u64, 0u64, 0u64);
     for (idx, (name, wasm)) in inputs.iter().enumerate() {
         let valid = amod::validate(wasm, feats).is_ok();
+        if !valid && name.starts_with("corpus:") { viol.push(Json::obj(vec![("class", Json::s("corpus-input-invalid")), ("props", Json::s("C02 C04 C06 C07 C08 C12 C13 C14 C19 C20")), ("what", Json::s(format!("{}: a corpus input does not validate (it would be skipped silently): {:?}", name, amod::validate(wasm, feats).err()))), ("input", Json::s(crate::c03::hex(wasm)))])); }
         crate::oracles::all_module_oracles(name, wasm, &mut viol);
         let win = match wmodcoq::wmod(wasm, false) { Some(s) => s, None => { n_unmodelled += 1; continue } };
         // configurations: fixtures get the default-like config and GC; generated inputs rotate through all combinations
